@@ -260,6 +260,81 @@ Proof.
   - apply (H1 k). rewrite (pending_of_conn s k cn Hc). exact Hp.
 Qed.
 
+(* ------------------------------------------------------------------------------------------ *)
+(* the pending challenge of a connection is the LATEST challenge issued on that connection        *)
+(* ------------------------------------------------------------------------------------------ *)
+
+Lemma auth_result_issue chk keep s c a m s1 c1 ar : auth_result hmac mf pb chk keep s c a m s1 c1 ar ->
+  (ar = AChallenge (next_nonce s) /\ pending c1 = Some (next_nonce s)) \/
+  ((forall n, ar <> AChallenge n) /\ (pending c1 = pending c \/ pending c1 = None)).
+Proof.
+  intro H; destruct H; cbn; try (right; split; [intros n E; discriminate E|auto]).
+  left. split; reflexivity.
+Qed.
+
+Lemma handle_issue chk v s k m k' ch :
+  pending_of (fst (handle chk v s k m)) k' = Some ch ->
+  (k' = k /\ o_auth (snd (handle chk v s k m)) = Some (AChallenge ch)) \/
+  ((k' <> k \/ forall n, o_auth (snd (handle chk v s k m)) <> Some (AChallenge n)) /\ pending_of s k' = Some ch).
+Proof.
+  intro H. destruct m as [h|]; [|right; split; [right; intros n E; discriminate E|exact H]].
+  destruct (conns s k) as [cn|] eqn:Hc.
+  2:{ unfold Auth.handle in *. rewrite Hc in *. right. split; [right; intros n E; discriminate E|exact H]. }
+  destruct (auth chk (v_first_keeps v) s (pend_c0 cn) (c_addr cn) h) as [[s1 c1] ar] eqn:Ha.
+  pose proof (auth_cases hmac mf pb chk (v_first_keeps v) s (pend_c0 cn) (c_addr cn) h) as Har. rewrite Ha in Har.
+  destruct (handle_pending chk v s k h cn s1 c1 ar Hc Ha) as (_ & Hk & Ho). cbv zeta in *.
+  rewrite (handle_out_auth hmac mf pb chk v s k h cn Hc _ _ _ Ha).
+  destruct (N.eq_dec k' k) as [->|Hne].
+  - rewrite Hk in H. destruct (auth_result_issue _ _ _ _ _ _ _ _ _ Har) as [[E1 E2]|[E1 [E2|E2]]].
+    + left. split; [reflexivity|]. rewrite E2 in H. injection H as <-. rewrite E1. reflexivity.
+    + right. split; [right; intros n E; injection E as E; exact (E1 n E)|].
+      rewrite E2 in H. rewrite (pending_of_conn s k cn Hc). exact H.
+    + rewrite E2 in H. discriminate.
+  - right. split; [left; exact Hne|]. destruct (Ho k' Hne) as [E|E]; rewrite E in H; [exact H|discriminate].
+Qed.
+
+Lemma step_issue v s e k ch acc :
+  (forall c, pending_of s k = Some c -> acc = Some c) ->
+  pending_of (fst (step v s e)) k = Some ch -> note k e (snd (step v s e)) acc = Some ch.
+Proof.
+  intros Hacc H.
+  assert (Hmsg : forall chk k0 m, pending_of (fst (handle chk v s k0 m)) k = Some ch ->
+            (if k0 =? k then match o_auth (snd (handle chk v s k0 m)) with Some (AChallenge n) => Some n | _ => acc end else acc) = Some ch).
+  { intros chk k0 m Hp. destruct (handle_issue chk v s k0 m k ch Hp) as [[-> E]|[Hno Hold]].
+    - rewrite N.eqb_refl, E. reflexivity.
+    - specialize (Hacc _ Hold). destruct (N.eqb_spec k0 k) as [->|_]; [|exact Hacc].
+      destruct Hno as [Hno|Hno]; [contradiction|].
+      destruct (o_auth (snd (handle chk v s k m))) as [[id| |n|]|] eqn:E; try exact Hacc.
+      exfalso. exact (Hno n eq_refl). }
+  destruct e; cbn [Auth.step fst snd] in *; unfold note; cbn [o_auth no_out];
+    try (apply Hacc; exact H); try (apply Hmsg; exact H).
+  - (* ERestart *) destruct lapsed; discriminate H.
+  - (* EExpire *) apply Hacc. destruct (clients s x); exact H.
+  - (* EDelAnon *) apply Hacc. destruct (v_anon_delete v); exact H.
+  - (* ERekey *) apply Hacc. unfold rekey in H. destruct (clients s x); exact H.
+  - (* ECorrupt *) apply Hacc. destruct (clients s x); exact H.
+  - (* EClose *) apply Hacc. destruct (close_pending s k0 k) as [E|E]; rewrite E in H; [exact H|discriminate].
+  - (* EOpen *) apply Hacc. unfold pending_of in H. cbn [conns set_conns] in H.
+    destruct (N.eq_dec k k0) as [->|Hn]; [rewrite upd_same in H; discriminate|].
+    rewrite upd_other in H by assumption. fold (pending_of (close s k0) k) in H.
+    destruct (close_pending s k0 k) as [E|E]; rewrite E in H; [exact H|discriminate].
+  - (* ESetRecord *) apply Hacc. destruct (clients s x); exact H.
+Qed.
+
+Lemma last_issued_inv v es : forall s k acc,
+  (forall c, pending_of s k = Some c -> acc = Some c) ->
+  forall ch, pending_of (run hmac mf pb v s es) k = Some ch -> last_issued hmac mf pb v s es k acc = Some ch.
+Proof.
+  induction es as [|e es IH]; intros s k acc Hacc ch H; [apply Hacc; exact H|].
+  cbn [Auth.run Auth.last_issued] in *. eapply IH; [|exact H].
+  intros c Hc. eapply step_issue; eassumption.
+Qed.
+
+(* in every reachable state, the challenge pending on a connection is the one most recently issued on that connection *)
+Theorem pending_is_latest_issued v es k ch :
+  pending_of (run hmac mf pb v init es) k = Some ch -> last_issued hmac mf pb v init es k None = Some ch.
+Proof. apply last_issued_inv. intros c Hc. discriminate Hc. Qed.
+
 Theorem run_pend_inv v es : forall s, pend_inv s -> pend_inv (run hmac mf pb v s es).
 Proof. induction es as [|e es IH]; intros s H; [exact H|]. cbn. apply IH. apply step_pend_inv. exact H. Qed.
 
